@@ -9,15 +9,22 @@
 typedef char State; typedef char Context;
 /* context stack window: g_c0 is the top, g_c1 below it, g_c2 below that; g_cd = depth */
 extern Context g_c0, g_c1, g_c2; extern int g_cd;
+/* g_pend: the innermost open container is an object that has read a member name and waits for its value (a pending entry on the _props stack).
+   Only the innermost bit is tracked: an object below another open container is always waiting (checked when the child opens, assumed when it closes). */
+extern int g_pend;
+#define VF_IS_MARKER(x) ((x) == COMMENT1 || (x) == COMMENT || (x) == LINECOMMENT || (x) == ENDCOMMENT)
+#define VF_EC (VF_IS_MARKER(g_c0) ? (g_c0 == ENDCOMMENT ? g_c2 : g_c1) : g_c0)
 Context nondet_ctx(void);
 #define CTX_TOP() (__CPROVER_assert(g_cd >= 1, "Stack::top on an empty context stack"), g_c0)
 /* Only the three topmost entries are tracked.  Everything below them satisfies the hidden-part invariant
    "containers (ARRAY/OBJECT) only, with ROOT exactly at the bottom": CTX_PUSH checks it for the entry that leaves the
    window, CTX_POP may therefore assume it for the entry that enters the window.  (enum ContextN must be visible.) */
-static inline void CTX_POP(void) { __CPROVER_assert(g_cd >= 1, "Stack::pop on an empty context stack"); g_c0 = g_c1; g_c1 = g_c2; g_c2 = nondet_ctx(); g_cd--;
-  __CPROVER_assume(g_cd < 3 || (g_cd == 3 ? g_c2 == ROOT : (g_c2 == ARRAY || g_c2 == OBJECT))); }
+static inline void CTX_POP(void) { __CPROVER_assert(g_cd >= 1, "Stack::pop on an empty context stack"); int vf_was_container = (g_c0 == ARRAY || g_c0 == OBJECT); g_c0 = g_c1; g_c1 = g_c2; g_c2 = nondet_ctx(); g_cd--;
+  __CPROVER_assume(g_cd < 3 || (g_cd == 3 ? g_c2 == ROOT : (g_c2 == ARRAY || g_c2 == OBJECT)));
+  if (vf_was_container) g_pend = (g_cd >= 1 && VF_EC == OBJECT) ? 1 : 0; }      /* the parent object was waiting for this container as the value of its pending name */
 static inline void CTX_PUSH(Context x) { __CPROVER_assert(g_cd < 3 || (g_cd == 3 ? g_c2 == ROOT : (g_c2 == ARRAY || g_c2 == OBJECT)), "entry leaving the tracked window is a container (ROOT at the bottom)");
-  g_c2 = g_c1; g_c1 = g_c0; g_c0 = x; g_cd++; }
+  if (x == ARRAY || x == OBJECT) { __CPROVER_assert(g_cd < 1 || VF_EC != OBJECT || g_pend == 1, "a container opened inside an object is the value of a pending member name"); }
+  g_c2 = g_c1; g_c1 = g_c0; g_c0 = x; g_cd++; if (x == ARRAY || x == OBJECT) g_pend = 0; }
 /* token buffer */
 #define VF_BUFCAP 16
 extern char g_buf[VF_BUFCAP]; extern int g_buflen;
@@ -31,9 +38,10 @@ static inline bool BUF_EQ(const char* s) { if (g_buflen >= VF_BUFCAP) return fal
 /* value tree: counters */
 extern int g_lists_pushed, g_lists_popped, g_props_pushed, g_values;
 static inline void begin_array(void) { g_lists_pushed++; }
-static inline void end_array(void) { g_lists_popped++; g_values++; }
+static inline void vf_put(void) { if (VF_EC == OBJECT) { __CPROVER_assert(g_pend == 1, "put() into an object: a member name is pending (Stack::top on the name stack)"); g_pend = 0; } }
+static inline void end_array(void) { g_lists_popped++; g_values++; vf_put(); }
 static inline void begin_object(void) { g_lists_pushed++; }
-static inline void end_object(void) { g_lists_popped++; g_values++; }
-static inline void new_property(void) { g_props_pushed++; }
-static inline void new_value(void) { g_values++; }
+static inline void end_object(void) { g_lists_popped++; g_values++; vf_put(); }
+static inline void new_property(void) { g_props_pushed++; __CPROVER_assert(VF_EC == OBJECT && g_pend == 0, "a member name is read inside an object that is not already waiting for a value"); g_pend = 1; }
+static inline void new_value(void) { g_values++; vf_put(); }
 #endif
